@@ -186,6 +186,10 @@ func (in *inst) Body() {
 	script := in.sc.Script
 	hs.Sub = func(ctx context.Context, field string, args map[string]any, call int) handschema.SubStep {
 		n := fmt.Sprint(args["n"])
+		// every operation emits its OWN values (100*n + k): a result delivered under another
+		// operation's id is visible
+		base, _ := strconv.Atoi(n)
+		base *= 100
 		vrt.Yield("resolver " + n)
 		end := func() handschema.SubStep {
 			in.log.Add("sub-end:%s", n)
@@ -204,12 +208,12 @@ func (in *inst) Body() {
 				k = 2
 			}
 			if call < k {
-				return handschema.SubStep{Kind: "emit", Val: call + 1}
+				return handschema.SubStep{Kind: "emit", Val: base + call + 1}
 			}
 			return end()
 		case "emit-error":
 			if call == 0 {
-				return handschema.SubStep{Kind: "emit", Val: 1}
+				return handschema.SubStep{Kind: "emit", Val: base + 1}
 			}
 			if call == 1 {
 				in.log.Add("sub-end:%s", n)
@@ -468,10 +472,11 @@ func (in *inst) Check(x *explore.Exec) (string, string) {
 				}
 				json.Unmarshal([]byte(parts[3]), &p)
 				if v, ok := p.Data["s"].(float64); ok {
-					if int(v) != o.lastData+1 {
-						return "ws:results-out-of-order", fmt.Sprintf("id %s: result %d after %d\n  %s", id, int(v), o.lastData, all)
+					idn, _ := strconv.Atoi(id)
+					if int(v) != idn*100+o.lastData+1 {
+						return "ws:results-out-of-order", fmt.Sprintf("id %s: result %d after %d results (operation n emits 100n+1, 100n+2, ...)\n  %s", id, int(v), o.lastData, all)
 					}
-					o.lastData = int(v)
+					o.lastData++
 				}
 			case "error":
 				o.errored = true
